@@ -11,6 +11,8 @@ import PygProofs.Lemmas.WaiterLemmas
 import PygModel.LiftX
 import PygModel.Txt
 import PygProofs.Lemmas.LiftXLemmas
+import PygModel.WaiterF
+import PygProofs.Lemmas.WaiterFLemmas
 
 namespace Pyg.Props.C19
 open Pyg
@@ -1193,5 +1195,37 @@ example : asciiLower "Hello World" = "hello world" ∧ asciiUpper "aBc-9" = "ABC
     libLower (.list [.cell (.str "Ab"), .dict [("k", .tuple [.cell (.int 3), .cell (.str "X y")])]])
       = .ok (.list [.cell (.str "ab"), .dict [("k", .tuple [.cell (.int 3), .cell (.str "x y")])]]) := by
   decide +kernel
+
+
+/-! ### failing awaitables (model extension: the statement speaks of results only)
+
+`runEventsF` (PygModel/WaiterF.lean): an awaitable may end with a result or with an exception; `asyncio.gather`
+propagates the first exception raised to the awaiting task at once. -/
+
+/-- **The first failure wins, at once and for good.**  Let the awaitables complete in any order; as long as they
+return results the caller stays suspended or gets the resolved structure, and the FIRST awaitable of the structure
+that raises (`id`, exception `e`) makes `await waiter(...)` raise `e` at that moment — without waiting for the
+awaitables still pending — and whatever happens afterwards (`post`: results, further failures) changes nothing. -/
+theorem waiter_first_failure_wins (w : W) (pre post : List (Nat × Outcome)) (id e : Nat)
+    (hid : id ∈ awaitables w) (hpre : ∀ ev ∈ pre, ev.1 ≠ id ∧ ∃ v, ev.2 = .ok v) :
+    (runEventsF w (pre ++ (id, .error e) :: post)).outcome = some (.error e) := by
+  obtain ⟨hc, hw⟩ := run_ok_invariant id pre (startF w) (startF_clean w) (startF_waits id w hid) hpre
+  simp only [runEventsF, List.foldl_append, List.foldl_cons]
+  rw [completeF_fail id e _ hc hw, fail_absorbing]
+  rfl
+
+/-- hence the outcome DEPENDS on the completion order when two awaitables fail: "whatever order the awaitables
+complete in" does not extend to exceptions (`waiter([a0, a1])`, both failing: the caller sees the exception of
+whichever failed first). -/
+theorem waiter_failure_order_matters :
+    (runEventsF (.list [.aw 0, .aw 1]) [(0, .error 7), (1, .error 8)]).outcome = some (.error 7) ∧
+    (runEventsF (.list [.aw 0, .aw 1]) [(1, .error 8), (0, .error 7)]).outcome = some (.error 8) :=
+  ⟨waiter_first_failure_wins _ [] [(1, .error 8)] 0 7 (by simp [awaitables, awaitablesList]) (by simp),
+   waiter_first_failure_wins _ [] [(0, .error 7)] 1 8 (by simp [awaitables, awaitablesList]) (by simp)⟩
+
+/-- non-vacuity with a non-empty prefix of results: `waiter({'k': (a1, 5), 'j': a2})`, `a2` returns, then `a1` raises -/
+example : (runEventsF (.dict [("k", .tuple [.aw 1, .val (.int 5)]), ("j", .aw 2)])
+    ([(2, .ok (.cell (.int 100)))] ++ (1, .error 9) :: [])).outcome = some (.error 9) :=
+  waiter_first_failure_wins _ _ _ 1 9 (by simp [awaitables, awaitablesList, awaitablesKVs]) (by simp)
 
 end Pyg.Props.C19
